@@ -4,7 +4,7 @@
 From Coq Require Import ZArith Bool String.
 From Coq Require Import List.
 Import ListNotations.
-Require Import MV.C04.Gen MV.C04.Model MV.C04.Geo MV.C04.Proofs.
+Require Import MV.C04.Gen MV.C04.Model MV.C04.Geo MV.C04.Stl MV.C04.Ref MV.C04.Proofs.
 Open Scope Z_scope.
 
 Theorem C04_roundtrip_xyz : forall (F Ftxt Cx Ctxt : Type) (pf : F -> Ftxt) (rf : Ftxt -> F) (f_of_int : Z -> F),
@@ -61,3 +61,57 @@ Theorem C04_attributes_geogram : forall (F Cx : Type) (f_of_int : Z -> F) (cx_of
   /\ s_ty (@sparse_of F Cx f_is_zero c_is_zero a) = a_ty a /\ s_ar (@sparse_of F Cx f_is_zero c_is_zero a) = a_ar a.
 Proof. intros. split; [now apply geo_attr_dense | repeat split]. Qed.
 Print Assumptions C04_attributes_geogram.
+
+(* ---- interoperability with the reference codecs of Ref.v (written from the format descriptions, free-form token
+   stream readers for OFF / tet / Medit): what mouette writes means the same to the reference reader, and what the
+   reference writer writes loads correctly. *)
+Theorem C04_interop_xyz : forall (F Ftxt Cx Ctxt : Type) (pf : F -> Ftxt) (rf : Ftxt -> F) (f_of_int : Z -> F),
+  (forall x, rf (pf x) = x) -> forall (m : mesh F Cx),
+  (forall L, @print_xyz F Ftxt Cx Ctxt pf m = Some L -> @ref_parse_xyz F Ftxt Cx Ctxt rf f_of_int L = Some (vocab_xyz m))
+  /\ @parse_xyz F Ftxt Cx Ctxt rf f_of_int (@ref_print_xyz F Ftxt Cx Ctxt pf m) = Some (vocab_xyz m).
+Proof. intros. split; [intros; eapply xyz_ref_reads; eassumption | now apply xyz_loads_ref]. Qed.
+Print Assumptions C04_interop_xyz.
+
+(* obj_ref_ok: vertex indices are >= 0 and faces have at least 3 vertices (what the OBJ grammar can say) *)
+Theorem C04_interop_obj : forall (F Ftxt Cx Ctxt : Type) (pf : F -> Ftxt) (rf : Ftxt -> F) (f_of_int : Z -> F),
+  (forall x, rf (pf x) = x) -> forall sw (m : mesh F Cx),
+  (forall L el, obj_exported_edges sw m = Some el -> @obj_ref_ok F Cx el m -> @print_obj F Ftxt Cx Ctxt pf sw m = Some L ->
+     @ref_parse_obj F Ftxt Cx Ctxt rf f_of_int L = Some (raw_of Cx (map (@v3 F) (mV m)) (map e2 el) (mF m) []))
+  /\ @parse_obj F Ftxt Cx Ctxt rf f_of_int (@ref_print_obj F Ftxt Cx Ctxt pf m)
+     = Some (raw_of Cx (map (@v3 F) (mV m)) (map (fun e => keyify2 (fst e) (snd e)) (mE m)) (mF m) []).
+Proof. intros. split; [intros; eapply obj_ref_reads; eassumption | now apply obj_loads_ref]. Qed.
+Print Assumptions C04_interop_obj.
+
+Theorem C04_interop_off : forall (F Ftxt Cx Ctxt : Type) (pf : F -> Ftxt) (rf : Ftxt -> F) (f_of_int : Z -> F),
+  (forall x, rf (pf x) = x) -> forall (m : mesh F Cx),
+  @ref_parse_off F Ftxt Cx Ctxt rf f_of_int (concat (print_off Ctxt pf m)) = Some (vocab_off m)
+  /\ (off_ok m -> @parse_off F Ftxt Cx Ctxt rf f_of_int (@ref_print_off F Ftxt Cx Ctxt pf m) = Some (vocab_off m)).
+Proof. intros. split; [now apply off_ref_reads | now apply off_loads_ref]. Qed.
+Print Assumptions C04_interop_off.
+
+Theorem C04_interop_tet : forall (F Ftxt Cx Ctxt : Type) (pf : F -> Ftxt) (rf : Ftxt -> F) (f_of_int : Z -> F),
+  (forall x, rf (pf x) = x) -> forall (m : mesh F Cx),
+  @ref_parse_tet F Ftxt Cx Ctxt rf f_of_int (concat (print_tet Ctxt pf m)) = Some (vocab_tet m)
+  /\ @parse_tet F Ftxt Cx Ctxt rf f_of_int (@ref_print_tet F Ftxt Cx Ctxt pf m) = Some (vocab_tet m).
+Proof. intros. split; [now apply tet_ref_reads | now apply tet_loads_ref]. Qed.
+Print Assumptions C04_interop_tet.
+
+(* the reference writer emits every edge and the kinds Triangles, Quadrilaterals, Tetrahedra, Hexahedra in that order *)
+Theorem C04_interop_medit : forall (F Ftxt Cx Ctxt : Type) (pf : F -> Ftxt) (rf : Ftxt -> F) (f_of_int : Z -> F),
+  (forall x, rf (pf x) = x) -> forall (m : mesh F Cx),
+  (forall L, @print_medit F Ftxt Cx Ctxt pf m = Some L ->
+     option_map Some (@ref_parse_medit F Ftxt Cx Ctxt rf f_of_int (concat L)) = Some (vocab_medit m))
+  /\ @parse_medit F Ftxt Cx Ctxt rf f_of_int (@ref_print_medit F Ftxt Cx Ctxt pf m)
+     = Some (raw_of Cx (map (@v3 F) (mV m)) (map e2 (mE m))
+               (filter (len_is 3) (mF m) ++ filter (len_is 4) (mF m)) (filter (len_is 4) (mC m) ++ filter (len_is 8) (mC m))).
+Proof. intros F Ftxt Cx Ctxt pf rf f_of_int H m. split; [intros L HL; now apply (medit_ref_reads F Ftxt Cx Ctxt pf rf f_of_int H m L) | now apply medit_loads_ref]. Qed.
+Print Assumptions C04_interop_medit.
+
+(* ---- binary STL (partial: triangle meshes; the importer is the third-party stl_reader, compared by the driver).
+   to32 is struct.pack('f'): rounding to binary32.  Full statement wanted: load (save m) = soup of m for every mesh;
+   missing: a model of stl_reader, and quads (written as two triangles, not claimed). *)
+Theorem C04_roundtrip_stl_partial : forall (F Cx F32 : Type) (to32 : F -> option F32) (zero32 : F32) (m : mesh F Cx) S,
+  Forall (fun f => zlen f = 3) (mF m) -> @soup32 F Cx F32 to32 m = Some S ->
+  exists L, @print_stl F Cx F32 to32 zero32 m = Some L /\ @ref_parse_stl F32 L = Some S.
+Proof. exact stl_roundtrip. Qed.
+Print Assumptions C04_roundtrip_stl_partial.
